@@ -1,3 +1,296 @@
-/-! Property C17 — theorems (statements live here, helper lemmas in Faithful/Lib) -/
+import Faithful.Lib.RangeCacheProofs
+
+/-! # Property C17 — the remote-file range cache is transparent
+
+Model: `Faithful/Lib/RangeCache.lean` (the definitions `fdrv-C17` executes), helper lemmas:
+`Faithful/Lib/RangeCacheProofs.lean`.
+
+A *history* is a list of atomic steps, each one lock-protected section of `RangeCache`:
+`check` (GetRange under the read lock), `fetchSet` (GetRange after a miss, under the write lock, with the outcome
+of the remote fetch), `set` (SetRange), `deleteOld` (DeleteOldEntries with any set of expired entries).  Every step
+carries its own map iteration order and its own context.  Since the sections are serialised by the RWMutex (readers
+do not write), every execution of any number of concurrent clients is such a list, and a client's `GetRange` is a
+`check` step followed — if it missed — by a later `fetchSet` step with the same arguments, with any number of other
+clients' steps in between.  All theorems quantify over ALL histories: no bound on length, file size, clients.
+
+Assumptions, stated as hypotheses (`Step.Fed`):
+* arguments are int64 values and the file size fits int64 (Go types);
+* **fetcher contract** `Fetch.Honest`: when the fetcher returns `err == nil` for a range inside the file, the whole
+  buffer holds the remote's bytes.  `GetRange` ignores the returned `n`; `fetcher_contract_is_needed` shows the
+  property fails without it.  `remoteReadAt_honours_contract` proves it for the HTTP fetcher of remote-file.go
+  (once it checks the status code: `remoteReadAt_without_status_check_breaks_contract` is the defect of the
+  pinned tree, fix C17-1);
+* callers of the exported `SetRange` pass the file's own bytes.
+-/
 namespace C17
+open RC
+
+/-! ## 0. the iteration-order parameter is exactly "any permutation" -/
+
+theorem iteration_order_is_any_permutation {α : Type} (l : List α) :
+    (∀ ks : Order, (reorder ks l).Perm l) ∧ (∀ p : List α, p.Perm l → ∃ ks : Order, reorder ks l = p) :=
+  ⟨fun ks => reorder_perm ks l, fun p hp => reorder_complete l p hp⟩
+
+example : reorder [5, 0, 1] [10, 20, 30] = [20, 30, 10] := by decide
+
+/-! ## 1. the invariant, per step and for every history -/
+
+/-- every atomic step — whatever the iteration order, the context, the expired set — keeps every cached entry
+    inside the file and equal to the file's bytes there -/
+theorem inv_preserved (file : Bytes) (hF : IsI64 (file.length : Int)) (st : State) (hinv : Inv file st)
+    (x : Step) (hx : x.Fed file) : Inv file (step (file.length : Int) st x).1 :=
+  step_inv file st hinv hF x hx
+
+/-- every state reachable from the empty cache, by any interleaving of any clients, is truthful -/
+theorem reachable_inv (file : Bytes) (hF : IsI64 (file.length : Int)) (steps : List Step)
+    (hfed : ∀ x ∈ steps, x.Fed file) : Inv file (run (file.length : Int) State.empty steps).1 :=
+  run_inv file hF steps State.empty (Inv.empty file) hfed
+
+-- non-vacuity: a history that really caches, replaces a subset, and expires
+example :
+    let file : Bytes := [1, 2, 3, 4, 5, 6]
+    (run 6 State.empty
+      [.fetchSet [] none 1 2 ⟨2, false, [2, 3]⟩, .fetchSet [] none 0 4 ⟨4, false, [1, 2, 3, 4]⟩,
+       .check [] none 1 2, .deleteOld [] none .all, .check [] none 1 2]).2
+    = [.ret (.ok [2, 3]), .ret (.ok [1, 2, 3, 4]), .ret (.ok (slice file 1 2)), .unit, .missed] := by decide
+
+/-! ## 2. transparency -/
+
+/-- **Every answer of every step of every history is right**: position by position, the output of the history
+    satisfies `OutOK` — a read inside the file returns exactly `file[start, start+ln)`, or `missed` (goes on to
+    fetch), or the context error (only with a cancellable context), or the fetch error (only when this call's
+    fetch failed); a read reaching outside the file returns the range error. -/
+theorem getRange_transparent (file : Bytes) (hF : IsI64 (file.length : Int)) (steps : List Step)
+    (hfed : ∀ x ∈ steps, x.Fed file) :
+    Pointwise (OutOK file) steps (run (file.length : Int) State.empty steps).2 :=
+  run_outs file hF steps State.empty (Inv.empty file) hfed
+
+/-- the same, spelled out for the `i`-th step of a history when that step is either half of some client's
+    `GetRange(start, ln)`: what the call may return -/
+theorem getRange_call_transparent (file : Bytes) (hF : IsI64 (file.length : Int)) (steps : List Step)
+    (hfed : ∀ x ∈ steps, x.Fed file) (i : Nat) (x : Step) (o : Out)
+    (hx : steps[i]? = some x) (ho : (run (file.length : Int) State.empty steps).2[i]? = some o)
+    (ks : Order) (ctx : Ctx) (start ln : Int)
+    (hget : x = .check ks ctx start ln ∨ ∃ f, x = .fetchSet ks ctx start ln f) :
+    -- data is exactly the file's bytes, and only for ranges inside the file
+    (∀ b, o = .ret (.ok b) → b = slice file start.toNat ln.toNat ∧ 0 ≤ start ∧ 0 ≤ ln ∧ start + ln ≤ (file.length : Int))
+    -- reads reaching outside the file are refused, and nothing else is
+    ∧ (o = .ret (.err .range) ↔ (start < 0 ∨ ln < 0 ∨ start + ln > (file.length : Int)))
+    -- a fetch error only when the fetch of this very call failed
+    ∧ (o = .ret (.err .fetch) → ∃ f, x = .fetchSet ks ctx start ln f ∧ f.failed = true)
+    -- a context error only with a cancellable context
+    ∧ (o = .ret (.err .ctx) → ctx ≠ none)
+    -- never a crash, never one of the internal consistency errors
+    ∧ o ≠ .ret .panic ∧ o ≠ .ret (.err .len) ∧ o ≠ .ret (.err .tooLarge) := by
+  have h := (getRange_transparent file hF steps hfed).get i x o hx ho
+  rcases hget with rfl | ⟨f, rfl⟩
+  · simp only [OutOK] at h
+    rcases h with ⟨rfl, hr⟩ | ⟨hr, rfl | ⟨rfl, hc⟩ | rfl⟩
+    · exact ⟨(by simp), ⟨fun _ => hr, fun _ => rfl⟩, (by simp), (by simp), (by simp), (by simp), (by simp)⟩
+    · exact ⟨(by simp), ⟨(by simp), (by intro h; omega)⟩, (by simp), (by simp), (by simp), (by simp), (by simp)⟩
+    · exact ⟨(by simp), ⟨(by simp), (by intro h; omega)⟩, (by simp), (fun _ => hc), (by simp), (by simp), (by simp)⟩
+    · exact ⟨(by intro b hb; simp at hb; exact ⟨hb.symm, hr⟩), ⟨(by simp), (by intro h; omega)⟩, (by simp), (by simp),
+        (by simp), (by simp), (by simp)⟩
+  · simp only [OutOK] at h
+    rcases h with ⟨rfl, hr⟩ | ⟨hr, ⟨rfl, hf⟩ | ⟨rfl, hf⟩⟩
+    · exact ⟨(by simp), ⟨fun _ => hr, fun _ => rfl⟩, (by simp), (by simp), (by simp), (by simp), (by simp)⟩
+    · exact ⟨(by simp), ⟨(by simp), (by intro h; omega)⟩, (fun _ => ⟨f, rfl, hf⟩), (by simp), (by simp), (by simp), (by simp)⟩
+    · exact ⟨(by intro b hb; simp at hb; exact ⟨hb.symm, hr⟩), ⟨(by simp), (by intro h; omega)⟩, (by simp), (by simp),
+        (by simp), (by simp), (by simp)⟩
+
+/-- a whole `GetRange` with nothing interleaved between its halves (the sequential reading), from any truthful state -/
+theorem getRange_sequential (file : Bytes) (hF : IsI64 (file.length : Int)) (ks1 ks2 : Order) (ctx1 ctx2 : Ctx)
+    (st : State) (hinv : Inv file st) (start ln : Int) (f : Fetch) (hs : IsI64 start) (hl : IsI64 ln)
+    (hf : f.Honest file start ln) :
+    let r := getRange ks1 ks2 ctx1 ctx2 (file.length : Int) st start ln f
+    Inv file r.1 ∧
+    (((start < 0 ∨ ln < 0 ∨ start + ln > (file.length : Int)) ∧ r = (st, .err .range))
+     ∨ ((0 ≤ start ∧ 0 ≤ ln ∧ start + ln ≤ (file.length : Int)) ∧
+         (r = (st, .err .ctx) ∧ ctx1 ≠ none ∨ f.failed = true ∧ r = (st, .err .fetch)
+           ∨ r.2 = .ok (slice file start.toNat ln.toNat)))) :=
+  getRange_correct file ks1 ks2 ctx1 ctx2 st hinv start ln f hF hs hl hf
+
+example : (getRange [] [] none none 6 ⟨[⟨0, 4, [1, 2, 3, 4]⟩], 4⟩ 1 2 ⟨0, true, []⟩).2 = .ok [2, 3] := by decide
+
+/-! ## 3. a failed fetch is not cached -/
+
+/-- a failed remote fetch leaves the cache exactly as it was (and the call returns an error), in every state -/
+theorem failed_fetch_not_cached (size : Int) (st : State) (ks : Order) (ctx : Ctx) (start ln : Int) (f : Fetch)
+    (hf : f.failed = true) :
+    (step size st (.fetchSet ks ctx start ln f)).1 = st ∧
+    ((step size st (.fetchSet ks ctx start ln f)).2 = .ret (.err .fetch)
+      ∨ (step size st (.fetchSet ks ctx start ln f)).2 = .ret (.err .range)) := by
+  simp only [step, fetchSet, hf]
+  split <;> simp
+
+/-- … and therefore leaves no trace in anything that happens later, in any history -/
+theorem failed_fetch_leaves_no_trace (size : Int) (st : State) (ks : Order) (ctx : Ctx) (start ln : Int) (f : Fetch)
+    (hf : f.failed = true) (rest : List Step) :
+    (run size st (.fetchSet ks ctx start ln f :: rest)).1 = (run size st rest).1 ∧
+    (run size st (.fetchSet ks ctx start ln f :: rest)).2.tail = (run size st rest).2 := by
+  have h := (failed_fetch_not_cached size st ks ctx start ln f hf).1
+  simp only [run, h, List.tail_cons, and_self]
+
+example : step 6 ⟨[⟨0, 2, [1, 2]⟩], 2⟩ (.fetchSet [] none 3 2 ⟨0, true, [0xEE, 0xEE]⟩)
+    = (⟨[⟨0, 2, [1, 2]⟩], 2⟩, .ret (.err .fetch)) := by decide
+
+/-! ## 4. reads reaching past the end are refused, never padded -/
+
+/-- a read reaching outside the file is refused by both halves of `GetRange` (and by `SetRange`), in EVERY state —
+    truthful or not — without touching the cache and without consulting the fetcher: no bytes are returned at all -/
+theorem past_end_refused (size : Int) (st : State) (ks : Order) (ctx : Ctx) (start ln : Int)
+    (hs : IsI64 start) (hl : IsI64 ln) (hout : start < 0 ∨ ln < 0 ∨ start + ln > size) :
+    step size st (.check ks ctx start ln) = (st, .ret (.err .range))
+    ∧ (∀ f, step size st (.fetchSet ks ctx start ln f) = (st, .ret (.err .range)))
+    ∧ (∀ ks2 ctx2 f, getRange ks ks2 ctx ctx2 size st start ln f = (st, .err .range))
+    ∧ (∀ v, step size st (.set ks ctx start ln v) = (st, .set .errRange)) := by
+  have hv := wrap64_invalid start ln size hs hl hout
+  refine ⟨?_, ?_, ?_, ?_⟩
+  · simp [step, check, hv]
+  · intro f; simp [step, fetchSet, hv]
+  · intro ks2 ctx2 f; simp [getRange, check, hv]
+  · intro v; simp [step, setRange, hv]
+
+example : step 6 State.empty (.check [] none 4 3) = (State.empty, .ret (.err .range)) := by decide
+example : step 6 State.empty (.check [] none 9223372036854775807 1) = (State.empty, .ret (.err .range)) := by decide
+
+/-! ## 5. ReadAt of the remote file (remote-file.go) -/
+
+/-- `HTTPSingleFileRemoteReaderAt.ReadAt(p, off)` over a truthful cache: `(0, io.EOF)` at or after the end; a read
+    reaching past the end (or a negative offset) is refused with `n = 0`; otherwise all `len(p)` bytes of the file,
+    or `(0, err)` when this call's fetch failed.  Never a partial read, never padding, never io.ErrUnexpectedEOF. -/
+theorem readAt_spec (file : Bytes) (hF : IsI64 (file.length : Int)) (ks1 ks2 : Order) (st : State) (hinv : Inv file st)
+    (pLen : Nat) (off : Int) (f : Fetch) (ho : IsI64 off) (hp : IsI64 (pLen : Int)) (hf : f.Honest file off pLen) :
+    let r := readAt ks1 ks2 (file.length : Int) st pLen off f
+    Inv file r.1 ∧
+    ((off ≥ (file.length : Int) ∧ r = (st, .ret [] .eof))
+     ∨ (off < (file.length : Int) ∧ (off < 0 ∨ off + pLen > (file.length : Int)) ∧ r = (st, .ret [] (.other .range)))
+     ∨ (0 ≤ off ∧ off + pLen ≤ (file.length : Int) ∧ off < (file.length : Int) ∧
+         (r.2 = .ret (slice file off.toNat pLen) .nil ∨ f.failed = true ∧ r = (st, .ret [] (.other .fetch))))) :=
+  readAt_correct file ks1 ks2 st hinv pLen off f hF ho hp hf
+
+example : (readAt [] [] 6 State.empty 2 5 ⟨2, false, [6, 0]⟩).2 = .ret [] (.other .range) := by decide
+example : (readAt [] [] 6 State.empty 2 6 ⟨2, false, [0, 0]⟩).2 = .ret [] .eof := by decide
+example : (readAt [] [] 6 State.empty 2 4 ⟨2, false, [5, 6]⟩).2 = .ret [5, 6] .nil := by decide
+
+/-- the HTTP fetcher `remoteReadAt` (with the status check of fix C17-1) honours the fetcher contract against any
+    server whose 206 answers carry the file's bytes — whatever else the server does (transport errors, any other
+    status with any body, bodies cut short) is turned into a failed fetch -/
+theorem remoteReadAt_honours_contract (file : Bytes) (off ln : Nat) (attempts : List HttpResp)
+    (hsrv : HonestServer file off ln attempts) :
+    (remoteReadAt true ln attempts).Honest file off ln := by
+  intro hok _ _ _
+  simpa using remoteReadAt_contract file off ln attempts hsrv hok
+
+/-- the pinned tree's `remoteReadAt` does not look at the status code and breaks the contract: the body of an error
+    response is handed to the cache as file content (the defect repaired by /verif/fixes/C17-1.patch) -/
+theorem remoteReadAt_without_status_check_breaks_contract :
+    ∃ (file : Bytes) (off ln : Nat) (attempts : List HttpResp), HonestServer file off ln attempts ∧
+      (remoteReadAt false ln attempts).failed = false ∧ (remoteReadAt false ln attempts).buf ≠ slice file off ln := by
+  refine ⟨[1, 2, 3, 4], 1, 2, [.resp 500 [60, 104, 116]], ?_, by decide, by decide⟩
+  intro body hb
+  simp at hb
+
+example : remoteReadAt true 2 [.resp 500 [60, 104, 116]] = ⟨0, true, [0, 0]⟩ := by decide
+example : remoteReadAt true 2 [.transportErr, .resp 206 [2, 3, 4]] = ⟨2, false, [2, 3]⟩ := by decide
+example : (remoteReadAt true 2 [.transportErr, .transportErr, .transportErr, .resp 206 [2, 3, 4]]).failed = true := by decide
+
+/-- end to end: `ReadAt` through the cache through `remoteReadAt` against an honest-or-failing HTTP server -/
+theorem http_readAt_transparent (file : Bytes) (hF : IsI64 (file.length : Int)) (ks1 ks2 : Order) (st : State)
+    (hinv : Inv file st) (pLen : Nat) (off : Int) (attempts : List HttpResp) (ho : IsI64 off) (hp : IsI64 (pLen : Int))
+    (hsrv : HonestServer file off.toNat pLen attempts) :
+    let f := remoteReadAt true pLen attempts
+    let r := readAt ks1 ks2 (file.length : Int) st pLen off f
+    Inv file r.1 ∧
+    ((off ≥ (file.length : Int) ∧ r = (st, .ret [] .eof))
+     ∨ (off < (file.length : Int) ∧ (off < 0 ∨ off + pLen > (file.length : Int)) ∧ r = (st, .ret [] (.other .range)))
+     ∨ (0 ≤ off ∧ off + pLen ≤ (file.length : Int) ∧ off < (file.length : Int) ∧
+         (r.2 = .ret (slice file off.toNat pLen) .nil ∨ f.failed = true ∧ r = (st, .ret [] (.other .fetch))))) := by
+  intro f r
+  apply readAt_correct file ks1 ks2 st hinv pLen off f hF ho hp
+  intro hok h0 _ _
+  have := remoteReadAt_contract file off.toNat pLen attempts hsrv hok
+  simpa using this
+
+/-- the fetcher contract is needed: `GetRange` ignores the `n` the fetcher returns, so a fetcher answering
+    `(n < len(p), nil)` gets the unfilled tail of the buffer returned — and cached — as file content -/
+theorem fetcher_contract_is_needed :
+    ∃ (file : Bytes) (start ln : Int) (f : Fetch), f.failed = false ∧ (f.n : Int) < ln ∧
+      ∃ b, (getRange [] [] none none (file.length : Int) State.empty start ln f).2 = .ok b ∧ b ≠ slice file start.toNat ln.toNat :=
+  ⟨[1, 2, 3, 4], 0, 4, ⟨2, false, [1, 2, 0, 0]⟩, rfl, by decide, [1, 2, 0, 0], by decide, by decide⟩
+
+/-! ## 6. structure of every reachable state — no assumption at all on fetcher, callers, contexts -/
+
+/-- in every state reachable by any history whatsoever: every entry lies inside the file and holds exactly
+    `end - start` bytes (so the sub-slice arithmetic of a superset hit cannot go out of bounds), no cached range
+    contains another one (in particular map keys are unique), and `occupiedSpace` is exactly the number of cached
+    bytes (mod 2^64) — it never underflows -/
+theorem reachable_wf (size : Int) (steps : List Step) : WF size (run size State.empty steps).1 :=
+  run_wf size steps State.empty (WF.empty size)
+
+example : (run 6 State.empty [.set [] none 0 2 [9, 9], .set [] none 1 4 [7, 7, 7, 7], .set [] none 0 6 [1, 2, 3, 4, 5, 6],
+    .set [] none 2 2 [0, 0]]).1 = ⟨[⟨0, 6, [1, 2, 3, 4, 5, 6]⟩], 6⟩ := by decide
+
+/-! ## 7. with live contexts, neither the answers nor the state (as a set) depend on the map iteration order -/
+
+theorem setRange_order_independent (ks ks' : Order) (size : Int) (st : State) (hwf : WF size st) (start ln : Int) (v : Bytes) :
+    (setRange ks none size st start ln v).2 = (setRange ks' none size st start ln v).2 ∧
+    (setRange ks none size st start ln v).1.cache.Perm (setRange ks' none size st start ln v).1.cache ∧
+    (setRange ks none size st start ln v).1.occ = (setRange ks' none size st start ln v).1.occ :=
+  RC.setRange_order_independent ks ks' size st hwf start ln v
+
+theorem deleteOld_order_independent (ks ks' : Order) (ex : Entry → Bool) (size : Int) (st : State) (hwf : WF size st) :
+    (deleteOld ks none ex st).cache.Perm (deleteOld ks' none ex st).cache ∧
+    (deleteOld ks none ex st).occ = (deleteOld ks' none ex st).occ :=
+  RC.deleteOld_order_independent ks ks' ex size st hwf
+
+theorem check_order_independent (file : Bytes) (hF : IsI64 (file.length : Int)) (ks ks' : Order) (st : State)
+    (hinv : Inv file st) (start ln : Int) (hs : IsI64 start) (hl : IsI64 ln) :
+    check ks none (file.length : Int) st start ln = check ks' none (file.length : Int) st start ln := by
+  by_cases hin : 0 ≤ start ∧ 0 ≤ ln ∧ start + ln ≤ (file.length : Int)
+  · rw [check_live file ks st hinv start ln hF hs hl hin.1 hin.2.1 hin.2.2,
+        check_live file ks' st hinv start ln hF hs hl hin.1 hin.2.1 hin.2.2]
+  · have hv := wrap64_invalid start ln (file.length : Int) hs hl (by omega)
+    simp [check, hv]
+
+-- the early return of the Go loop matters only outside reachable states: with nested entries the order shows
+example : (setRange [] none 6 ⟨[⟨1, 2, [2]⟩, ⟨0, 6, [1, 2, 3, 4, 5, 6]⟩], 7⟩ 1 3 [2, 3, 4]).1
+        ≠ (setRange [1] none 6 ⟨[⟨1, 2, [2]⟩, ⟨0, 6, [1, 2, 3, 4, 5, 6]⟩], 7⟩ 1 3 [2, 3, 4]).1 := by decide
+
+/-! ## 8. the cache does cache -/
+
+/-- after a successful fetch (live context) every read nested in the fetched range is a hit with the file's bytes —
+    for every iteration order, with no further fetch -/
+theorem fetched_range_is_cached (file : Bytes) (hF : IsI64 (file.length : Int)) (ks ks' : Order) (st : State)
+    (hinv : Inv file st) (start ln : Int) (f : Fetch) (hs : IsI64 start) (hl : IsI64 ln) (hf : f.Honest file start ln)
+    (hok : f.failed = false) (h0 : 0 ≤ start) (h1 : 0 ≤ ln) (h2 : start + ln ≤ (file.length : Int))
+    (s' ln' : Int) (hs' : start ≤ s') (hl' : 0 ≤ ln') (he' : s' + ln' ≤ start + ln) :
+    check ks' none (file.length : Int) (fetchSet ks none (file.length : Int) st start ln f).1 s' ln'
+      = some (.ok (slice file s'.toNat ln'.toNat)) := by
+  have hfs := fetchSet_correct file ks none st hinv start ln f hF hs hl hf
+  have hv : invalidB start (wrap64 (start + ln)) (file.length : Int) = false := by
+    simp only [invalidB, Bool.or_eq_false_iff, decide_eq_false_iff_not]
+    unfold wrap64; unfold IsI64 at hs hl hF; omega
+  obtain ⟨he, _, _, _⟩ := wrap64_valid start ln _ hs hl hv
+  have hb := hf hok h0 h1 h2
+  have hst : (fetchSet ks none (file.length : Int) st start ln f).1 = (setRange ks none (file.length : Int) st start ln f.buf).1 := by
+    simp [fetchSet, hv, hok]
+  have hlen : (f.buf.length : Int) = wrap64 (start + ln) - start := by
+    rw [hb, slice_length _ _ _ (by omega), he]; omega
+  obtain ⟨en, hen, hcov⟩ := setRange_live_covers ks (file.length : Int) st start ln f.buf hv hlen
+  have hI64s : IsI64 s' := by unfold IsI64 at *; omega
+  have hI64l : IsI64 ln' := by unfold IsI64 at *; omega
+  rw [check_live file ks' _ hfs.1 s' ln' hF hI64s hI64l (by omega) hl' (by omega)]
+  have hany : (fetchSet ks none (file.length : Int) st start ln f).1.cache.any
+      (fun en => containsB en.s en.e s' (s' + ln')) = true := by
+    rw [List.any_eq_true]
+    refine ⟨en, by rw [hst]; exact hen, ?_⟩
+    apply containsB_trans hcov
+    rw [he]
+    simp only [containsB, Bool.and_eq_true, decide_eq_true_eq]
+    omega
+  rw [hany, if_pos rfl]
+
+example : check [] none 6 (fetchSet [] none 6 State.empty 1 4 ⟨4, false, [2, 3, 4, 5]⟩).1 2 2 = some (.ok [3, 4]) := by decide
+
 end C17
